@@ -127,7 +127,7 @@ def c_hex_selector():
             f"Definition gen_hex_body_is_even_table : bool := {'true' if body_even else 'false'}.")
 
 
-def _cache_params(fname, defname):
+def _cache_params(fname, defname, must_cache=False):
     tree = T._parse(CELL)
     fn = T._find_func(T._find_class(tree, "Cell"), fname)
     params = [a.arg for a in fn.args.args]
@@ -150,11 +150,15 @@ def _cache_params(fname, defname):
     if "cache" in decs:
         # functools.cache keys on every argument of the call
         return f"Definition {defname} : option (list cparam) := Some [" + "; ".join(m[p] for p in params) + "]."
+    if must_cache:
+        # without the memo the recursion of _neighborhood visits degree^radius cells: the modelled (memoised)
+        # shape no longer corresponds; reported through T1 (the driver bounds every query by a CPU budget)
+        raise T.Broken(f"Cell.{fname} is not memoised (no functools.cache): un-cached recursion, exponential in the radius")
     return f"Definition {defname} : option (list cparam) := None."
 
 
 def c_inner_cache():
-    return _cache_params("_neighborhood", "gen_cell_inner_cache")
+    return _cache_params("_neighborhood", "gen_cell_inner_cache", must_cache=True)
 
 
 def c_get_cache():
